@@ -282,3 +282,62 @@ def keyword_prefix_rule(m, rid):
             if not ok:
                 r.fail("%s|keyword-prefix|%s" % (q, lit), "%s: %s" % (q, why), m.loc(f, n))
     return r
+
+
+# =================================================================================================
+# asserts on the text being matched: AssertionError is not a syntax error
+# =================================================================================================
+def assert_on_input_rule(m, rid):
+    from rules import C06
+    from rules import common_block as cb
+    from rules import delim_rules as D
+    ctx = cb.get_ctx(m)
+    r = RuleResult(rid, "no matcher asserts a condition that depends on the text being matched unless the tests before it already imply the "
+                        "condition (an AssertionError is not converted into a syntax error)")
+    r.floor = 1
+    matches, inp = C06.input_params(m, ctx)
+    for fid, f in sorted(matches.items(), key=lambda x: x[1].qualname):
+        asserts = [n for n in A.body_nodes(f.node) if isinstance(n, ast.Assert)]
+        if not asserts or not inp[fid]:
+            continue
+        d = defuse.deps(f.node)
+        derived = set(inp[fid])
+        grew = True
+        while grew:
+            grew = False
+            for name, srcs in d.items():
+                if name not in derived and srcs & derived:
+                    derived.add(name)
+                    grew = True
+        P = A.parents(f.node)
+        for a in asserts:
+            names = {x.id for x in ast.walk(a.test) if isinstance(x, ast.Name)}
+            if not (names & derived):
+                continue
+            if isinstance(a.test, ast.Call) and A.dotted(a.test.func) == "isinstance":
+                continue        # a type guard on the argument, not a condition on its text
+            r.instances += 1
+            facts = []
+            for t, pol in D.facts_at(f.node, a, P):
+                facts += D.expand(t, pol)
+            implied = False
+            t = a.test
+            for ft, fp in facts:
+                if A.text(ft) == A.text(t) and fp:
+                    implied = True
+                # `assert x == ""` after `elif x: return`
+                if isinstance(t, ast.Compare) and len(t.ops) == 1 and isinstance(t.ops[0], ast.Eq) and A.const(t.comparators[0], 1) == "" \
+                        and A.text(ft) == A.text(t.left) and not fp:
+                    implied = True
+                # negated comparison facts: `if j == -1: return` before `assert j != -1`
+                if isinstance(t, ast.Compare) and isinstance(ft, ast.Compare) and len(t.ops) == 1 and len(ft.ops) == 1 \
+                        and A.text(t.left) == A.text(ft.left) and A.text(t.comparators[0]) == A.text(ft.comparators[0]):
+                    opp = {ast.Eq: ast.NotEq, ast.NotEq: ast.Eq, ast.Is: ast.IsNot, ast.IsNot: ast.Is}
+                    if not fp and opp.get(type(ft.ops[0])) is type(t.ops[0]):
+                        implied = True
+            r.ob(implied, "%s: `assert %s` implied by the tests before it" % (f.qualname, A.text(t)[:40]))
+            if not implied:
+                r.fail("%s|assert-on-input|%s" % (f.qualname, A.text(t)[:40]), "%s asserts `%s`, which depends on the text being matched and is not "
+                       "implied by the tests before it: for other text the AssertionError escapes the parser instead of a syntax error"
+                       % (f.qualname, A.text(t)[:60]), m.loc(f, a))
+    return r
